@@ -69,7 +69,7 @@ def run(rec, cfg):
     MR.attach_find()
     rng = cfg.rng("c06")
     rules = MR.rule_instances()
-    n = cfg.scale(32, 12000)
+    n = cfg.scale(24, 12000)
 
     def drive(root, depth_limit=3, rules=rules, big=False):
         frontier = [root]
